@@ -774,7 +774,9 @@ def lifted_run(m, t, q, seed, t_initial=None):
     async def prog(mpc):
         S = mpc.SecFld(q)
         a, b, c = (S(v) for v in xs)
-        res = await mpc.output([a * b + c, a + b, a * a * c, a - b])
+        # public ints are elements of the BASE field, whatever their representative: constructor and operands
+        k1, k2 = xs[0] + 3 * q, xs[1] - 2 * q
+        res = await mpc.output([a * b + c, a + b, a * a * c, a - b, S(k1) + S(k2), S(k1) * S(k2), a * k1, k2 * b, a + k1, k2 - b])
         return (S.subfield is not None, S.field.order, [(type(v).__name__, int(v), type(v).order) for v in res])
     net = SimNet(m, t, no_prss=False, seed=seed, t_initial=t_initial)   # t_initial: mpc.threshold assigned after set-up
     try:
@@ -784,7 +786,9 @@ def lifted_run(m, t, q, seed, t_initial=None):
         return f'run failed: {type(exc).__name__}: {str(exc)[:200]}', 0
     clear_caches()
     a, b, c = xs
-    want = [(a * b + c) % q, (a + b) % q, (a * a * c) % q, (a - b) % q]
+    k1, k2 = a + 3 * q, b - 2 * q
+    want = [(a * b + c) % q, (a + b) % q, (a * a * c) % q, (a - b) % q, (k1 + k2) % q, (k1 * k2) % q, (a * k1) % q, (k2 * b) % q,
+            (a + k1) % q, (k2 - b) % q]
     for i, (lifted, order, res) in enumerate(outs):
         vals = [v for _, v, _ in res]
         ords = {o for _, _, o in res}
